@@ -6,6 +6,7 @@ cells, which become constants) carry the assigned values; the trimmed model
 and the trimmed + saved + reloaded model must give the same outputs after
 every assignment; nothing but cells the outputs need may survive the trim."""
 
+import itertools
 import os
 
 from hypothesis import strategies as st
@@ -290,15 +291,74 @@ def check_fixed(rec):
         rec.fail(f'fixed:raises:{exc_key(exc)}', case, repr(exc)[:300])
 
 
+TWINS = [('A:A', 'A1:A3', 'S!A2'), ('B:B', 'B1:B3', 'S!B3'),
+         ('1:1', 'A1:B1', 'S!B1'), ('A:B', 'A1:B3', 'S!B2'),
+         ('2:3', 'A2:B3', 'S!A3')]
+
+
+def check_twin(rec, pair, agg, pre, outputs, loaded):
+    """an unbounded reference and the bounded range it is bound to, read by
+    different formulas, in every order of first evaluation"""
+    unb, twin, member = TWINS[pair]
+    data = {'A1': 1, 'B1': 2, 'A2': 3, 'B2': 4.5, 'A3': 6, 'B3': 7}
+    forms = {'A1': f'={agg}(S!{twin})', 'A2': f'={agg}(S!{unb})*2',
+             'B1': '=A1+1', 'B2': '=A2+1'}
+    spec = {'sheets': {'S': data, 'F': forms}}
+    case = dict(kind='twin', pair=pair, agg=agg, pre=list(pre),
+                outputs=list(outputs), loaded=loaded)
+    rec.case(key=('twin', pair, agg, tuple(pre), tuple(outputs), loaded),
+             nontrivial=True, labels=('twin', f'pre:{len(pre)}'), sample=case)
+    try:
+        with TempDir() as tmp:
+            m = compile_spec(spec)
+            for a in pre:
+                m.evaluate(a)
+            m.trim_graph([member], list(outputs))
+            if loaded:
+                from pycel.excelcompiler import ExcelCompiler
+                path = os.path.join(tmp, 'm.yml')
+                m.to_file(path)
+                m = ExcelCompiler.from_file(path)
+            for value in (10, -2):
+                m.set_value(member, value)
+                vals = dict(data)
+                vals[member.split('!')[1]] = value
+                ref = compile_spec({'sheets': {'S': vals, 'F': forms}})
+                for a in outputs:
+                    got, want = models.safe_eval(m, a), models.safe_eval(ref, a)
+                    if not models.same_value(got, want):
+                        rec.fail('twin:output-differs:' +
+                                 ('loaded' if loaded else 'trimmed'), case,
+                                 f'{forms}: evaluate {list(pre)}, trim('
+                                 f'[{member}], {list(outputs)}), {member}='
+                                 f'{value}: {a} = {got!r}, expected {want!r}')
+                        return
+    except Exception as exc:
+        rec.fail(f'twin:raises:{exc_key(exc)}', case, repr(exc)[:300])
+
+
+def check_twins(rec):
+    pres = [(), ('F!B1',), ('F!B2',), ('F!B1', 'F!B2'), ('F!B2', 'F!B1')]
+    outs = [('F!B1', 'F!B2'), ('F!B2', 'F!B1'), ('F!B2',), ('F!B1',)]
+    for pair, agg, pre, outputs, loaded in itertools.product(
+            range(len(TWINS)), ('SUM', 'MAX'), pres, outs, (False, True)):
+        check_twin(rec, pair, agg, pre, outputs, loaded)
+    rec.exhaustive.append('unbounded reference + its bounded twin: 5 forms x '
+                          '2 aggregates x 5 pre-evaluation orders x 4 output '
+                          'lists x {trimmed, trimmed+saved+loaded}')
+
+
 def shards(tier, seed):
-    out = [dict(kind='fixed')]
-    for k in range(15):
+    out = [dict(kind='fixed'), dict(kind='twins')]
+    for k in range(14):
         out.append(dict(kind='hyp', seed=seed * 1000 + k,
                         n=110 if tier == 'quick' else 5000))
     return out
 
 
 def run_shard(shard, rec):
+    if shard['kind'] == 'twins':
+        return check_twins(rec)
     if shard['kind'] == 'fixed':
         check_fixed(rec)
     else:
@@ -307,6 +367,9 @@ def run_shard(shard, rec):
 
 
 def replay(case, rec):
+    if isinstance(case, dict) and case.get('kind') == 'twin':
+        return check_twin(rec, case['pair'], case['agg'], tuple(case['pre']),
+                          tuple(case['outputs']), case['loaded'])
     if isinstance(case, dict) and case.get('kind', '').startswith('fixed'):
         check_fixed(rec)
         return
